@@ -530,7 +530,7 @@ def term_axioms(fs):
     return out
 
 
-def discharge(premises, goal, timeout_ms=10000, hints=None):
+def discharge(premises, goal, timeout_ms=10000, hints=None, hint_arrays=None):
     """-> dict(status, stage, time_s, detail)"""
     t0 = time.time()
     prem = []
@@ -567,6 +567,16 @@ def discharge(premises, goal, timeout_ms=10000, hints=None):
     fsE = fsE + term_axioms(ground + [neg])
     seq = uses_seq(fsE)
     ints, strs = harvest(base)
+    if hint_arrays:
+        # instantiation hints (DESIGN 3.7): close the term pool once under the given
+        # pointer arrays (e.g. the parent of every address mentioned)
+        have = set(t.get_id() for t in ints)
+        for arr in hint_arrays:
+            for t in list(ints):
+                nt = z3.Select(arr, t)
+                if nt.get_id() not in have:
+                    have.add(nt.get_id())
+                    ints.append(nt)
     estimate = 0
     for q in quant:
         n = 1
